@@ -31,8 +31,8 @@ def drive(F4, alg, N, order=0, selftest=False):
         g = F4.create(alg_name=alg, N=N)
         calls = [g.get_voronoi_adjacency, g.get_cell_borders, g.get_center_distances]
         calls = calls[order % 3:] + calls[:order % 3]
-        for c in calls:
-            c()
+        from vlib.rec import call_and_hold
+        call_and_hold(calls, "C04.returned_object_stable")
         G = np.asarray(g.get_grid_as_array(only_upper=True), dtype=float)
         direct, anti = geom4.oracle_for(G)
         off = ~np.eye(N, dtype=bool)
